@@ -643,104 +643,26 @@ class NativeParser(Parser):
         s_dict : SDict[K, V]
             dict to be processed. _extract_string_literals() works on dict.block_content.
         """
-        search_pattern: Pattern[str]
-        string_literals: list[str]
+        # Single quoted and double quoted string literals are searched in ONE scan from left to right,
+        # so that a quote character inside a literal of the other flavour does not open or close a literal,
+        # and every literal is replaced at the position where it was found.
+        single_quoted: str = r"(?P<sq>((?<!\\)\\{8}')|((?<!\\)\\{6}')|((?<!\\)\\{4}')|((?<!\\)\\{2}')|(?<!\\)').*?(?P=sq)"
+        double_quoted: str = r'(?P<dq>((?<!\\)\\{8}")|((?<!\\)\\{6}")|((?<!\\)\\{4}")|((?<!\\)\\{2}")|(?<!\\)").*?(?P=dq)'
+        search_pattern: Pattern[str] = re.compile(pattern=f"{single_quoted}|{double_quoted}")
 
-        # Step 1: Find single quoted string literals in .block_content
-        search_pattern = re.compile(
-            pattern=r"(?P<sq>((?<!\\)\\{8}')|((?<!\\)\\{6}')|((?<!\\)\\{4}')|((?<!\\)\\{2}')|(?<!\\)').*?(?P=sq)",
-            flags=re.MULTILINE,
-        )
-        single_quoted_matches: list[Match[str]] = list(re.finditer(search_pattern, s_dict.block_content))
-
-        # Step 2: Find double quoted string literals in .block_content
-        # Double quoted strings are identified as string literals only in case they do not contain a $ character.
-        # (double quoted strings containing a $ character are considered expressions, not string literals.)
-        search_pattern = re.compile(
-            pattern=r'(?P<dq>((?<!\\)\\{8}")|((?<!\\)\\{6}")|((?<!\\)\\{4}")|((?<!\\)\\{2}")|(?<!\\)").*?(?P=dq)',
-        )
-        double_quoted_matches: list[Match[str]] = []
-        for match in re.finditer(search_pattern, s_dict.block_content):
-            string_literal = match.string[match.start(0) : match.end(0)]
-            if "$" not in string_literal:
-                double_quoted_matches.append(match)
-
-        # Check for string literals nested inside another string literal
-        dq_start: int
-        sq_start: int
-        sq_end: int
-        # Classify all single quoted string literals as to whether they are (also)
-        # found as a nested literal in any double quoted string literal, or not.
-        _single_quoted_string_literals_found_nested: list[str] = []
-        _single_quoted_string_literals_not_nested: list[str] = []
-        for single_quoted_match in single_quoted_matches:
-            single_quoted_string_literal: str = single_quoted_match.string[
-                single_quoted_match.start(0) : single_quoted_match.end(0)
-            ]
-            dq_start = single_quoted_match.start(0)
-            found_nested_in_double_quoted_match: bool = False
-            for double_quoted_match in double_quoted_matches:
-                sq_start = double_quoted_match.start(0)
-                sq_end = double_quoted_match.end(0)
-                if dq_start > sq_start and dq_start < sq_end:
-                    # sq match is inside dq match -> sq match is nested
-                    found_nested_in_double_quoted_match = True
-                    break
-            if found_nested_in_double_quoted_match:
-                _single_quoted_string_literals_found_nested.append(single_quoted_string_literal)
-            else:
-                _single_quoted_string_literals_not_nested.append(single_quoted_string_literal)
-
-        # Classify all double quoted string literals as to whether they are (also)
-        # found as a nested literal in any single quoted string literal, or not.
-        _double_quoted_string_literals_found_nested: list[str] = []
-        _double_quoted_string_literals_not_nested: list[str] = []
-        for double_quoted_match in double_quoted_matches:
-            double_quoted_string_literal: str = double_quoted_match.string[
-                double_quoted_match.start(0) : double_quoted_match.end(0)
-            ]
-            dq_start = double_quoted_match.start(0)
-            found_nested_in_single_quoted_match: bool = False
-            for single_quoted_match in single_quoted_matches:
-                sq_start = single_quoted_match.start(0)
-                sq_end = single_quoted_match.end(0)
-                if dq_start > sq_start and dq_start < sq_end:
-                    # dq match is inside sq match -> dq match is nested
-                    found_nested_in_single_quoted_match = True
-                    break
-            if found_nested_in_single_quoted_match:
-                _double_quoted_string_literals_found_nested.append(double_quoted_string_literal)
-            else:
-                _double_quoted_string_literals_not_nested.append(double_quoted_string_literal)
-
-        # For replacement of the string literals inside dict.block_content:
-        # Chain the different identified string literals in such a sequence that
-        # outer literals (i.e. those that are NOT found nested inside another literal)
-        # are replaced first.  String literals that were found (also) nested inside other literals
-        # are replaced last. The latter then would only replace occurences of these string literals
-        # where they are NOT nested (as the nested occurences are already replaced by
-        # the placeholders of the outer string literals they were nested in).
-        string_literals = (
-            _single_quoted_string_literals_not_nested
-            + _double_quoted_string_literals_not_nested
-            + _single_quoted_string_literals_found_nested
-            + _double_quoted_string_literals_found_nested
-        )
-        for string_literal in string_literals:
+        def _replace_with_placeholder(match: Match[str]) -> str:
+            string_literal: str = match.group(0)
+            # Double quoted strings are identified as string literals only in case they do not contain a $ character.
+            # (double quoted strings containing a $ character are considered expressions, not string literals.)
+            if match.group("dq") is not None and "$" in string_literal:
+                return string_literal
             index = self.counter()
-            placeholder = f"STRINGLITERAL{index:06d}"
-
-            # Replace all occurances of the string literal in .block_content with the placeholder (STRINGLITERAL000000)
-            # Note: For re.sub() to work properly we need to escape all special characters
-            search_pattern = re.compile(re.escape(string_literal))
-            s_dict.block_content = re.sub(
-                search_pattern,
-                placeholder,
-                s_dict.block_content,
-            )
-
             # Register the string literal in .string_literals
             s_dict.string_literals.update({index: Parser.remove_quotes_from_string(string_literal)})
+            # Replace the string literal in .block_content with the placeholder (STRINGLITERAL000000)
+            return f"STRINGLITERAL{index:06d}"
+
+        s_dict.block_content = re.sub(search_pattern, _replace_with_placeholder, s_dict.block_content)
 
         return
 
